@@ -4,7 +4,8 @@ import json, glob, sys, jsonschema
 ok = True
 jsonschema.validate(json.load(open('/verif/MANIFEST.json')), json.load(open('/root/.vp/MANIFEST.schema.json')))
 es = json.load(open('/root/.vp/EVIDENCE.schema.json'))
-for f in sorted(glob.glob('/verif/evidence/*.json')):
+m = json.load(open('/verif/MANIFEST.json'))
+for f in sorted(c['evidence_file'] for c in m['checks']):
     try:
         jsonschema.validate(json.load(open(f)), es)
     except Exception as e:
